@@ -317,6 +317,13 @@ func c10NewStack(conf c10Config) (s *c10Stack) { return c10NewStackWith(conf, ni
 // serves that profile and device (e.g. a profile loaded from the profile
 // database's file cache) instead of building them from conf.
 func c10NewStackWith(conf c10Config, prof *agd.Profile, dev *agd.Device) (s *c10Stack) {
+	return c10NewStackGeo(conf, prof, dev, nil)
+}
+
+// c10NewStackGeo is like [c10NewStackWith], but when realGeo is not nil the
+// whole chain (ratelimitmw, mainmw, ecscache) uses it instead of the table
+// GeoIP of the rig.
+func c10NewStackGeo(conf c10Config, prof *agd.Profile, dev *agd.Device, realGeo geoip.Interface) (s *c10Stack) {
 	rec := &c10Rec{}
 	s = &c10Stack{
 		rec:    rec,
@@ -543,7 +550,7 @@ func c10NewStackWith(conf c10Config, prof *agd.Profile, dev *agd.Device) (s *c10
 			},
 			OnHasListID: func(_ filter.ID) (ok bool) { return true },
 		},
-		GeoIP:   geo,
+		GeoIP:   c10PickGeo(realGeo, geo),
 		Handler: c10Upstream(rec),
 		HashMatcher: &agdtest.HashMatcher{OnMatchByPrefix: func(_ context.Context, host string) ([]string, bool, error) {
 			rec.HashMatch = append(rec.HashMatch, host)
@@ -594,6 +601,14 @@ func c10NewStackWith(conf c10Config, prof *agd.Profile, dev *agd.Device) (s *c10
 	}
 
 	return s
+}
+
+func c10PickGeo(realGeo, table geoip.Interface) geoip.Interface {
+	if realGeo != nil {
+		return realGeo
+	}
+
+	return table
 }
 
 // ---- One request -------------------------------------------------------------
@@ -733,6 +748,10 @@ func (s *c10Stack) serve(q c10Query, id uint16) (o *c10Obs) {
 		default:
 			p := netip.MustParsePrefix(q.ECS)
 			o.SourceNetmask, o.Address = uint8(p.Bits()), net.IP(p.Addr().AsSlice())
+			if !p.Addr().Is4() {
+				// IPv6 family, incl. IPv4-mapped prefixes.
+				o.Family = 2
+			}
 		}
 		opt.Option = append(opt.Option, o)
 	}
